@@ -628,13 +628,15 @@ OBLIGATIONS = [
                symbolic="none (concrete validation of the reference model)"),
     Obligation("cd", ob_cd, bounds=_B + _QB + "cd with no arg / 10 target spellings / - / -N (0..4) / malformed / two args / -P; $AUTO_PUSHD; $DIRSTACK_SIZE 0..5",
                pre=_PRE + ["0 <= form < 7", "-1 <= old_i < 5", "0 <= tgt < 10", "0 <= n <= 4", "0 <= size <= 5"],
-               parts={"quick": _CD_Q, "thorough": [dict(nstack=k, form=f) for k in range(4) for f in range(7)]
-                      + [dict(nstack=k, form=1, cdp=True) for k in range(2)]},
+               parts={"quick": _CD_Q, "thorough": [dict(nstack=k, form=f, old_i=-1) for k in range(3) for f in (0, 1, 3, 4, 5, 6)]
+                      + [dict(nstack=3, form=3, old_i=-1)] + [dict(nstack=k, form=2) for k in range(2)]
+                      + [dict(nstack=k, form=1, cdp=True, old_i=-1) for k in range(2)]},
                timeout={"quick": 240, "thorough": 1500}, symbolic="state indices, target, N, flags, size"),
     Obligation("pushd", ob_pushd, bounds=_B + _QB + "pushd with no arg / 10 targets / +N / -N / malformed; -n; $PUSHD_MINUS; $DIRSTACK_SIZE 0..5; target removed before chdir",
                pre=_PRE + ["0 <= form < 5", "0 <= tgt < 10", "0 <= n <= 4", "0 <= size <= 5"],
                parts={"quick": _PUSHD_Q,
-                      "thorough": [dict(nstack=k, form=f, gone=g) for k in range(4) for f in range(5) for g in (False, True)]},
+                      "thorough": [dict(nstack=k, form=f, gone=g) for k in range(4) for f in (0, 2, 3, 4) for g in (False, True)]
+                                  + [dict(nstack=k, form=1, gone=g) for k in range(3) for g in (False, True)]},
                timeout={"quick": 300, "thorough": 1500},
                regions={"C16-pushd-moves-instead-of-rotating": _region_rotation, "C16-pushd-popd-chdir-failure": _region_chdir_fail},
                symbolic="state indices, target, N, -n, $PUSHD_MINUS, size"),
